@@ -199,5 +199,5 @@ def strip_facts(x):
 
 GLOBAL_AXIOMS = [
     INT_OK(lit("1")), INT_VAL(lit("1")) == 1,
-    NWF(lit("")) == lit(""), SQF(lit("")) == lit(""),
+    NWF(lit("")) == lit(""), SQF(lit("")) == lit(""), SQTRIM(lit("")) == lit(""),
 ]
